@@ -397,6 +397,10 @@ func fileget(h FileReader, r *Request, pkt requestPacket, alloc *allocator, orde
 	if rd == nil {
 		return statusFromError(pkt.id(), errors.New("unexpected read packet"))
 	}
+	if _, ok := pkt.(*sshFxpReadPacket); !ok {
+		// e.g. a WRITE or READDIR naming a handle that was opened for reading
+		return statusFromError(pkt.id(), errors.New("unexpected packet type for a read handle"))
+	}
 
 	data, offset, _ := packetData(pkt, alloc, orderID, maxTxPacket)
 
@@ -418,6 +422,11 @@ func fileput(h FileWriter, r *Request, pkt requestPacket, alloc *allocator, orde
 	wr := r.getWriterAt()
 	if wr == nil {
 		return statusFromError(pkt.id(), errors.New("unexpected write packet"))
+	}
+	if _, ok := pkt.(*sshFxpWritePacket); !ok {
+		// e.g. a READ naming a handle that was opened for writing: it must not
+		// be turned into a write of an uninitialised buffer
+		return statusFromError(pkt.id(), errors.New("unexpected packet type for a write handle"))
 	}
 
 	data, offset, _ := packetData(pkt, alloc, orderID, maxTxPacket)
@@ -513,6 +522,11 @@ func filelist(h FileLister, r *Request, pkt requestPacket) responsePacket {
 	lister := r.getListerAt()
 	if lister == nil {
 		return statusFromError(pkt.id(), errors.New("unexpected dir packet"))
+	}
+	switch pkt.(type) {
+	case *sshFxpReadPacket, *sshFxpWritePacket:
+		// a READ or WRITE naming a directory handle is not a READDIR
+		return statusFromError(pkt.id(), errors.New("unexpected packet type for a directory handle"))
 	}
 
 	offset := r.lsNext()
